@@ -716,3 +716,43 @@ def build_daemon_wrapper(b, src_path, out_path, workdir):
     if rc != 0 or not os.path.exists(out_path):
         return None, (rc, o[-400:], e[-400:])
     return out_path, None
+
+
+SHAPE_LENGTHS = (1, 8191, 8192, 8193, 65535, 65536, 65537, 73728, 262144, 1048576, 4194304)
+
+
+def gen_shape_program(name, ret='0'):
+    """Deterministic "output shape" programs.  name = 'single:<n>' (one print of exactly n bytes between two short lines),
+    'small:<n>' (n bytes as 16-byte prints without newline), 'lines:<n>' (the same as 15+newline lines), 'noeol:<n>' (one print of n
+    bytes, no newline, last thing before exit), 'mix' (long and short prints interleaved), 'err:<n>' (print of n bytes, then a runtime error)."""
+    kind, _, arg = name.partition(':')
+    n = int(arg) if arg else 0
+    pre = '''
+fn build(n: int) -> string {
+    let mut s: string = "0123456789abcde+"
+    while (< (str_length s) n) {
+        set s (str_concat s s)
+    }
+    return (str_substring s 0 n)
+}
+shadow build { assert (== (str_length (build 5)) 5) }
+
+fn down(n: int) -> int {
+    if (== n 0) { return 0 } else { return (+ 1 (down (- n 1))) }
+}
+shadow down { assert (== (down 3) 3) }
+'''
+    if kind == 'single':
+        body = '(println "shape-begin")\n    (print (build %d))\n    (println "")\n    (println "shape-end")' % n
+    elif kind == 'noeol':
+        body = '(println "shape-begin")\n    (print (build %d))' % n
+    elif kind == 'small':
+        body = 'let mut i: int = 0\n    while (< i %d) {\n        (print "0123456789abcde+")\n        set i (+ i 1)\n    }\n    (println "")\n    (println "shape-end")' % (n // 16)
+    elif kind == 'lines':
+        body = 'let mut i: int = 0\n    while (< i %d) {\n        (println "0123456789abcde")\n        set i (+ i 1)\n    }\n    (println "shape-end")' % (n // 16)
+    elif kind == 'err':
+        body = '(print (build %d))\n    (println "")\n    (print "partial-")\n    (println (down 1000000))' % n
+    else:
+        body = ('(println "a")\n    (print (build 70000))\n    (println "b")\n    (println (build 9000))\n    (print "c")\n    (print (build 300000))\n'
+                '    (println "")\n    (println (build 3))\n    (print (build 8192))\n    (print (build 8192))\n    (println "z")')
+    return pre + 'fn main() -> int {\n    %s\n    return %s\n}\nshadow main { assert true }\n' % (body, ret)
